@@ -224,6 +224,58 @@ def wl_fill_all(ctx, rng, case):
     case.nontrivial = True
 
 
+def wl_point_reads(ctx, rng, case):
+    """arrays of a few hundred to 300 000 bits used the way a filter uses them: point reads and point writes only (test-and-set, read after
+    write, neighbours within one byte, far jumps), each read compared with the list model at once - and NO whole-array accessor in between
+    (a full scan after every call would re-prime anything remembered between two point reads); the full comparison comes at the end"""
+    from probables.utilities import Bitarray
+
+    n = rng.choice([300, 2047, 2048, 2057, 2100, 4096, 5000, 20000, 65535, 65536, 65539, 300000])
+    ba = Bitarray(n)
+    model = [0] * n
+    case.desc = {"size": n, "kind": "point reads and writes only"}
+    ctx.observe("sizes", n)
+    readers = (lambda i: ba.check_bit(i), lambda i: int(ba.is_bit_set(i)), lambda i: ba[i])
+
+    def rd(i, where):
+        got = rng.choice(readers)(i)
+        ctx.counters["oracle_evaluations"] += 1
+        if got != model[i]:
+            ctx.fail(f"point read of bit {i} differs from the list model {where} (size {n})", got=got, want=model[i])
+
+    def wr(i, v):
+        how = rng.randrange(3)
+        if how == 0:
+            ba[i] = v
+        elif v:
+            ba.set_bit(i)
+        else:
+            ba.clear_bit(i)
+        model[i] = v
+
+    hot = [rng.randrange(n) for _ in range(4)] + [n - 1, n - 2, 0, max(0, n - 9)]
+    for step in range(rng.randint(40, 160)):
+        i = rng.choice(hot) if rng.random() < 0.6 else rng.randrange(n)
+        j = min(n - 1, (i // 8) * 8 + rng.randrange(8))  # a bit of the same byte
+        r = rng.random()
+        if r < 0.3:
+            rd(i, "before a write"), wr(i, 1 - model[i]), rd(i, "right after it was written")  # test-and-set / test-and-clear
+        elif r < 0.55:
+            rd(i, "before a write to its neighbour"), wr(j, rng.randint(0, 1)), rd(i, "after a write to a neighbour in its byte"), rd(j, "after it was written")
+        elif r < 0.7:
+            wr(i, rng.randint(0, 1)), rd(i, "right after it was written")
+        elif r < 0.9:
+            rd(i, "in a run of reads"), rd(j, "in a run of reads")
+        else:
+            wr(i, 1), wr(j, 0), rd(i, "after two writes to its byte") if i != j else rd(j, "after two writes")
+        ctx.count("point_operations_without_a_scan_in_between")
+    compare(ctx, ba, model, f"at the end of a history of point reads and writes (size {n})")
+    ctx.count("point_read_histories")
+    if n > 2056:
+        ctx.count("point_read_histories_beyond_2056_bits")
+    case.nontrivial = True
+
+
 def wl_many_clears(ctx, rng, case):
     """LONG lives: an array that is written once and then cleared hundreds or tens of thousands of times (a scratch bitmap cleared per
     request) must stay all zero - checked around every power-of-two number of clears - and must still take writes afterwards"""
@@ -265,9 +317,10 @@ PROP = Prop(
         Workload("random", wl_random, quick=400, thorough=300000),
         Workload("many_clears", wl_many_clears, quick=6, thorough=24),
         Workload("fill_all", wl_fill_all, quick=6, thorough=60),
+        Workload("point_reads", wl_point_reads, quick=60, thorough=6000),
     ],
     assumptions=["values passed to []= are ints/bools, as the signature says",
                  "any of IndexError/ValueError/TypeError counts as 'rejected with an error'"],
-    required=["full_state_comparisons", "rejections_expected"],
+    required=["full_state_comparisons", "rejections_expected", "point_read_histories_beyond_2056_bits"],
     shards={"quick": 4, "thorough": 16},
 )
